@@ -100,7 +100,8 @@ PROPS = {
                   'writer_scans': ['Writer::item_indices', 'Writer::reset_and_retrieve_updated_items', 'Writer::clear_db_and_create_a_single_leaf',
                                    'Writer::prepare_changing_distance', 'clear_tree_nodes', 'lemma_tree_range'],
                   'tree_drivers': TREE_DRIVERS, 'insert_driver': ['Writer::insert_items_in_current_trees'], 'incr_driver': ['Writer::incremental_index_large_descendants'],
-                  'build': ['Writer::build']},
+                  'trees_new': ['ImmutableTrees::new', 'ImmutableTrees::sub_tree_from_id'], 'insert_glue': ['Writer::insert_items_in_tree'],
+                  'build': ['Writer::build'], 'inv_lib': None},
         'kani': {'quick': [('key_layout', KEY_LAYOUT_ALL)]},
         'assumed_fns': WB_ASSUMED + BUILD_ASSUMED,
         'trusted': ['build and its drivers: the frame clause same_except(old, final, index, ..) is an UNCONDITIONAL postcondition (it also holds on every error exit); the glue functions insert_items_in_tree / pre_process_items / used_tree_node are assumed to stay within the index (A6)'],
